@@ -53,6 +53,7 @@ def gen_cases(rng, tier, ctx):
                     cw.append(rng.below(256))
                 add(('decode_data ' if rng.chance(1, 2) else 'decode_str ') + fmt_list(cw), 'b256-length-vs-rest')
     cs += [dict(c, cat='rs-corpus') for c in corpus.rs_cases()]
+    cs += [{'line': c['line'], 'cat': 'rs-singular-jump'} for c in corpus.rs_singular_cases()]
     for c1 in (128, 191, 192, 207, 208, 127, 0, 255):
         for b in range(256):
             add('decode_data 241,%d,%d' % (c1, b), 'eci-designator')
